@@ -12,7 +12,7 @@
       the flag is needed (a batch that is never closed carries the constructor's control record) *)
 From Coq Require Import String List NArith ZArith Bool Lia.
 From ACH Require Import Arith.
-From ACH Require Import ReaderValid ReaderValidFacts LayoutFacts FileStructFacts DispatchFacts WrittenCountsFacts ReaderWidth ReaderWidthFacts.
+From ACH Require Import ReaderValid ReaderValidFacts LayoutFacts FileStructFacts DispatchFacts DispatchBytes WrittenCountsFacts ReaderWidth ReaderWidthFacts ReaderLineBreakFacts.
 From ACH Require Import Layouts RecRules Tables C01Obl C01FileEx C01FileObl C01ValidObl C02ValidObl.
 Import ListNotations.
 Local Open Scope string_scope.
@@ -26,6 +26,10 @@ Lemma parse_fills_checked : forallb (parse_fills all_rules) all_layouts = true.
 Proof. vm_compute. reflexivity. Qed.
 
 Lemma reader_kinds_checked : reader_kinds_ok all_layouts = true.
+Proof. vm_compute. reflexivity. Qed.
+
+(* no literal String() writes and no constant Parse assigns holds a CR or LF *)
+Lemma lits_no_nl_checked : forallb lits_no_nl all_layouts = true.
 Proof. vm_compute. reflexivity. Qed.
 
 (* why each unbounded column is filled: the reason [fills] accepts *)
@@ -176,6 +180,21 @@ Proof.
   destruct (c02_reader_domain text f clk Hr Hc Hc4) as (_ & _ & _ & _ & Hshape).
   exact (physical_tree LT (stamp clk f) Hshape Hadv).
 Qed.
+
+(* no record written for a reader-produced tree holds a CR or LF: splitting the written text at the line ending
+   gives back exactly these records *)
+Theorem c02_reader_no_line_break text f clk :
+  read_text_valid LT RT AT text = Some (f, false) -> wf_utf8 clk = true -> no_nl clk = true ->
+  forallb no_nl (write_file_padded LT (stamp clk f)) = true /\ all_file (rec_no_nl LT) (stamp clk f) = true.
+Proof.
+  intros Hr Hc Hn. split.
+  - exact (reader_no_break LT RT AT all_layouts_ok parse_fills_checked lits_no_nl_checked reader_kinds_checked clk Hc Hn text f Hr).
+  - exact (reader_rec_no_nl LT RT AT all_layouts_ok parse_fills_checked lits_no_nl_checked reader_kinds_checked clk Hc Hn text f Hr).
+Qed.
+
+Theorem c02_reader_lines_no_break text ls : norm_lines (read_lines text) = Some ls ->
+  Forall (fun l => wf_utf8 l = true /\ no_nl l = true) ls.
+Proof. exact (read_lines_ok text ls). Qed.
 
 (* ------------------------------------------------------------------ *)
 (* 3. examples                                                          *)
